@@ -1,1 +1,40 @@
-From Arche Require Import Model.Base.
+(** C06 - Target death and table recycling never corrupt or leak entities.
+    Statements only; proofs in Proofs/Store.v and Proofs/Misc.v.  [ent_cells w e] is the
+    triple (node, relation target, component cells) the storage holds for [e]. *)
+From Arche Require Import Model.Base Model.Pool Model.World Model.Ops
+  Proofs.PoolInv Proofs.Tables Proofs.Store Proofs.Misc.
+
+(** Removing ANY alive entity - a relation target or not, targeting itself or not, with
+    its target clean-up and the retirement of emptied tables - succeeds from every state
+    satisfying the storage invariant, and every other alive entity keeps its node, its
+    (possibly now dead) target and all its component cells. *)
+Theorem C06_remove_entity : forall w live issued frees e,
+  store_ok w live -> pool_inv (w_pool w) live issued frees -> e ∈ live -> (egen e < gen_max)%N ->
+  is_locked w = false ->
+  let r := op_remove_entity w e in
+  snd (fst r) = Ok VUnit /\
+  store_ok (fst (fst r)) (filter (fun x => x <> e) live) /\
+  pool_inv (w_pool (fst (fst r))) (filter (fun x => x <> e) live) issued (eid e :: frees) /\
+  (forall e', e' ∈ live -> e' <> e -> ent_cells (fst (fst r)) e' = ent_cells w e') /\
+  pool_alive (w_pool (fst (fst r))) e = false.
+Proof. exact remove_entity_ok. Qed.
+
+(** Retiring a table (only empty tables are retired) changes no entity's data ... *)
+Theorem C06_retire_keeps : forall w live tid,
+  store_ok w live ->
+  store_ok (cleanup_table w tid) live /\ w_pool (cleanup_table w tid) = w_pool w /\
+  (forall e, ent_cells (cleanup_table w tid) e = ent_cells w e).
+Proof. exact cleanup_table_keeps. Qed.
+Theorem C06_target_cleanup_keeps : forall w live target,
+  store_ok w live ->
+  store_ok (cleanup_tables_for w target) live /\ w_pool (cleanup_tables_for w target) = w_pool w /\
+  (forall e, ent_cells (cleanup_tables_for w target) e = ent_cells w e).
+Proof. exact cleanup_tables_for_keeps. Qed.
+
+(** ... and an empty table is all zero, so storage re-used for another target starts empty:
+    no entity and no component value of the old target can show up. *)
+Theorem C06_reuse_starts_empty : forall zr t i,
+  table_ok zr t -> tlen t = 0 -> i < length (t_rows t) -> t_rows t !! i = Some zr /\ t_ents t = [].
+Proof. exact empty_table_all_zero. Qed.
+
+Print Assumptions C06_remove_entity.
